@@ -18,6 +18,17 @@ from rac.common import Rac, PRELUDE
 from rac import optgen as G
 
 CHECK_SRC = '''
+def poke_views(opt):
+    """what a user of scipy-style optimizers does between matching calls: take views of the merit function (native and rescaled to
+    normalised intervals) and read their limits / current point.  Reading must not change what the solver does afterwards."""
+    for kw in (dict(rescale_x=(0.0, 1.0)), dict(rescale_x=(-1.0, 1.0)), dict()):
+        try:
+            v = opt.get_merit_function(**kw)
+            v.get_x_limits()
+            v.get_x()
+        except Exception:
+            pass
+
 def drive(prob, calls):
     """run a list of calls (source text over opt, d); exceptions of solve/step end the sequence"""
     opt, d, act = build(prob, restore_if_fail=False, n_steps_max=6)
@@ -25,7 +36,7 @@ def drive(prob, calls):
     err = None
     for c in calls:
         try:
-            exec(c, dict(opt=opt, d=d))
+            exec(c, dict(opt=opt, d=d, poke_views=poke_views))
         except TypeError:
             raise
         except Exception as ex:
@@ -62,10 +73,11 @@ def main():
     N = 1200 if quick else 8000
     rac.section("limits+max_step", "generated problems with limits around the start (solution inside, outside, on the boundary), "
                 "per-knob max_step, unit and non-unit weights x call sequences (step(1), step(3), solve(), step(broyden=True), "
-                "step(take_best=False)); every log row and the container within the closed limits; every Jacobian-step row "
+                "step(take_best=False), also with views of the merit function taken and read in between); every log row and the container within the closed limits; every Jacobian-step row "
                 "within max_step of its predecessor; non-trivial = a limit or max_step is present", f"{N} problems (seeded)", exhaustive=False)
     seqs = [["opt.step(1)"], ["opt.step(3)"], ["opt.solve()"], ["opt.step(2, broyden=True)"], ["opt.step(2, take_best=False)", "opt.step(2)"],
-            ["opt.step(1)", "opt.solve()"], ["opt.step(4, take_best=False)"]]
+            ["opt.step(1)", "opt.solve()"], ["opt.step(4, take_best=False)"],
+            ["poke_views(opt)", "opt.step(3)"], ["opt.step(1)", "poke_views(opt)", "opt.step(2, take_best=False)"], ["poke_views(opt)", "opt.solve()"]]
     for n in range(N):
         if rac.out_of_time(0.55):
             break
